@@ -676,6 +676,15 @@ theorem C08_close_unguarded : ∀ c : Client, clTables.closeUnguarded.any (· = 
   intro c; cases c <;> decide
 
 open Mcp.Gen.CallFacts in
+/-- (i) The Streamable server's `handleGet`, on its way out (after the stream's context ended): the write deadline is set
+    before the stream's write lock is taken.  A sender blocked in a write to a peer that stays connected but no longer
+    reads holds that lock; the deadline is what releases it.  (The other order is the shape of
+    `C08_lock_across_read_witness`: a lock held across a blocked I/O operation keeps everybody who needs it waiting —
+    here the handler, the blocked sender and every later writer; reached on the real server by the script
+    `stalledPeer`, fingerprints `calls:server:streamable:stalled-peer-not-released-after-{delete,replace}`.) -/
+theorem C08_get_exit_deadline_before_lock : clTables.getExitDeadlineFirst = true := by decide
+
+open Mcp.Gen.CallFacts in
 /-- (h) No stream-reading function of the three client transports (`handleSSEResponse`, `handleGetSSEEvents`, `readSSE`,
     `readLoop`, …) holds a lock across its read loop: no deferred unlock in such a function, every lock taken before the
     loop released before it. -/
